@@ -432,6 +432,12 @@ func parseRange(s string, size int64) ([]httpRange, error) {
 			if i > size {
 				i = size
 			}
+			if i == 0 {
+				// A suffix that selects no byte (suffix-length 0, or
+				// empty content) is unsatisfiable: RFC 7233 Section 2.1.
+				noOverlap = true
+				continue
+			}
 			r.start = size - i
 			r.length = size - r.start
 		} else {
